@@ -190,6 +190,26 @@ fn one_case(ctx: &Ctx, case: u64, l: &mut Local) {
         }
     }
 
+    // an array with more than 2^16 elements: index paths name exactly the elements they spell
+    if case % 30_000 == 1 {
+        let n = 65_540usize;
+        let u = json!({"iss": "https://issuer.example/A", "exp": 4_000_000_000u64, "arr": (0..n).map(|i| i % 10).collect::<Vec<_>>()});
+        let paths = vec!["$.arr[3]", "$.arr[65537]", "$.arr.[65539]"];
+        let mut issuer = api::new_issuer(cfg.alg, 0, true);
+        let out = api::issue_raw(&mut issuer, &u, sd_jwt_rs::ClaimsForSelectiveDisclosureStrategy::Custom(paths.clone()), None, false, cfg.fmt);
+        l.evals += 1;
+        match out.ok().and_then(|t| crate::model::Parts::parse(cfg.fmt, &t).ok()).and_then(|p| p.payload().ok().map(|pl| (p, pl))) {
+            Some((parts, pl)) => {
+                let hidden: Vec<usize> = pl["arr"].as_array().map(|a| a.iter().enumerate().filter(|(_, e)| e.is_object()).map(|(i, _)| i).collect()).unwrap_or_default();
+                if hidden == vec![3, 65_537, 65_539] && parts.disclosures.len() == 3 {
+                    l.count("huge-array.exact-elements-hidden");
+                } else {
+                    l.violate(viol(case, "element-hidden-but-not-designated", "array of 65 540 elements", format!("hidden positions {:?}, {} disclosures", hidden.iter().take(8).collect::<Vec<_>>(), parts.disclosures.len()), json!({"paths": paths})));
+                }
+            }
+            None => l.violate(viol(case, "issue", "array of 65 540 elements", "issuance failed or result undecodable".into(), json!({"paths": paths}))),
+        }
+    }
     // malformed and non-existent paths
     if case % 10 == 0 {
         let good: Vec<String> = s.strat.paths.clone();
@@ -217,6 +237,16 @@ fn one_case(ctx: &Ctx, case: u64, l: &mut Local) {
                 other.panic_signature().unwrap_or_else(|| "Ok".into()),
                 json!({"input": input(), "bad_path": bad, "history": api::history()}),
             )),
+        }
+        // ... also when there is nothing else to walk: claims that hold only iss / exp / iat (or nothing)
+        for claims in [json!({"iss": "https://issuer.example/A", "exp": 4_000_000_000u64, "iat": 1_700_000_000u64}), json!({})] {
+            let mut issuer = api::new_issuer(cfg.alg, 0, true);
+            let out = api::issue_raw(&mut issuer, &claims, sd_jwt_rs::ClaimsForSelectiveDisclosureStrategy::Custom(vec![bad]), None, false, cfg.fmt);
+            l.evals += 1;
+            match out {
+                Outcome::Err(_) => l.count("malformed-path.refused"),
+                other => l.violate(viol(case, "malformed-path-accepted", "path-without-$.-prefix (claims with nothing to hide)", other.panic_signature().unwrap_or_else(|| "Ok".into()), json!({"claims": claims, "bad_path": bad}))),
+            }
         }
         // the same issuer must still work afterwards, and non-existent paths have no effect:
         // issue with the good paths plus paths that name nothing, compare against the same SD set
